@@ -61,7 +61,7 @@ func execWorld(w *world.World, ctx *core.Ctx, k int) (*world.Runtime, *simrt.Sim
 }
 
 func finish(ctx *core.Ctx, rt *world.Runtime, sim *simrt.Sim) {
-	for _, k := range []string{"conv_error", "nil_struct", "gen_decline", "gen_error", "target_error"} {
+	for _, k := range []string{"conv_error", "nil_struct", "gen_decline", "gen_error", "typed_nil_error", "echo_error"} {
 		if n := rt.FaultsFired[k]; n > 0 {
 			ctx.St.Add("fault_fired_"+k, uint64(n))
 		}
